@@ -76,7 +76,7 @@ func c16Parse(w *c16Watch, s string) (res interface{}, err error, panicked inter
 }
 
 func runC16(r *ev.Run) {
-	r.Rule = "(i) every string of length <=5 (6 thorough) over a 26-symbol character alphabet taken from the tokenizer's branches (letters, digits, quotes, brackets, operator characters, an invalid byte), each parsed twice in a row; (i') every operator string of length <=3 (4 thorough) over 12 operator characters inside 6 statement templates, each parsed 16 times (map iteration order is the one source of nondeterminism no scheduler controls); (ii) every token sequence of length <=4 (5 over a reduced alphabet, thorough) over a 63-token alphabet (each parsed twice in a row) incl. extreme numbers, unterminated and doubled quotes, multi-byte identifiers, and every one-token deletion/replacement/insertion of SQLite-valid CREATE statements; (iii) locality: an alphabet of column definitions, indexed columns and table constraints (all accepted by real SQLite), every ordered pair and triple (quadruple thorough) as one statement: what is reported for element i must equal what is reported for the same text as the only element; determinism: same result twice and after parsing any other statement of the alphabet. oracle: returns (no panic, no hang), deep-equal results. non-trivial = inputs the parser accepts"
+	r.Rule = "(i) every string of length <=5 (6 thorough) over a 26-symbol character alphabet taken from the tokenizer's branches (letters, digits, quotes, brackets, operator characters, an invalid byte), each parsed twice in a row; (i') every operator string of length <=3 (4 thorough) over 12 operator characters inside 6 statement templates, each parsed 16 times (map iteration order is the one source of nondeterminism no scheduler controls); (ii) every token sequence of length <=4 (5 over a reduced alphabet, thorough) over a 63-token alphabet (each parsed twice in a row) incl. extreme numbers, unterminated and doubled quotes, multi-byte identifiers, and every one-token deletion/replacement/insertion of SQLite-valid CREATE statements; (iii) locality: an alphabet of column definitions, indexed columns and table constraints (all accepted by real SQLite), every ordered pair and triple (quadruple thorough) as one statement: what is reported for element i must equal what is reported for the same text as the only element; determinism: same result twice and after parsing any other statement of the alphabet, which includes 25 lexical corner cases (every quoting style, with and without a doubled quote, terminated and not, open comments, malformed numbers, invalid bytes) - for these also every ordered triple. oracle: returns (no panic, no hang), deep-equal results. non-trivial = inputs the parser accepts"
 	w := newC16Watch()
 	go func() {
 		for {
@@ -699,6 +699,17 @@ func c16Locality(r *ev.Run, w *c16Watch) {
 	}
 	stmts = append(stmts, c16ValidStatements()...)
 	stmts = append(stmts, "garbage (", "SELECT * FROM", "")
+	// lexical corner cases: every quoting style, with and without a doubled (escaped) quote, terminated and not;
+	// what one parse leaves behind (scratch buffers, pooled objects) must not show in the next
+	lexical := []string{
+		`CREATE TABLE t ("a""b" INT, c)`, `CREATE TABLE t (c DEFAULT 'it''s', "d""e")`, "CREATE TABLE t (`a``b`, c)", `CREATE TABLE t ([a b], c)`,
+		`CREATE INDEX i ON t ("a""b" DESC, 'c''d')`, `CREATE TABLE t (a CHECK (a <> 'x''y'), "q""r" TEXT COLLATE NOCASE)`,
+		`SELECT "x""y FROM t`, `SELECT 'x''y FROM t`, "SELECT `x``y FROM t", `SELECT [xy FROM t`, `CREATE TABLE t ("a`, `CREATE TABLE t ('a''`, `CREATE TABLE t ("a""`,
+		`CREATE TABLE t (a DEFAULT 'unterminated`, `CREATE TABLE t (a) /* open comment`, `CREATE TABLE t (a) -- comment without newline`,
+		`CREATE TABLE t (a DEFAULT 1e)`, `CREATE TABLE t (a DEFAULT 0x)`, `CREATE TABLE t (a DEFAULT 1.2.3)`, "CREATE TABLE t (\x80)", "CREATE TABLE \xe9 (a)",
+		`CREATE TABLE t ("""")`, `CREATE TABLE t ('''' TEXT)`, `SELECT "" FROM t`, `SELECT '' FROM t`,
+	}
+	stmts = append(stmts, lexical...)
 	first := make([]interface{}, len(stmts))
 	firstErr := make([]string, len(stmts))
 	for i, s := range stmts {
@@ -714,6 +725,25 @@ func c16Locality(r *ev.Run, w *c16Watch) {
 			r.Trans(2)
 			if !reflect.DeepEqual(res, first[i]) || errS(err) != firstErr[i] {
 				r.Violation("C16:nondeterministic", fmt.Sprintf("sql.Parse(%q) after parsing %q gives %+v (%v); the first time it gave %+v (%s)", s, stmts[j], res, err, first[i], firstErr[i]), map[string]interface{}{"statement": s, "before": stmts[j]})
+			}
+		}
+	}
+	// triples over the lexical corner cases: B after A2 after A1
+	lfirst := map[string]int{}
+	for i, s := range stmts {
+		lfirst[s] = i
+	}
+	for _, a1 := range lexical {
+		for _, a2 := range lexical {
+			for _, b := range lexical {
+				c16Parse(w, a1)
+				c16Parse(w, a2)
+				res, err, _ := c16Parse(w, b)
+				r.Eval(1)
+				r.Trans(3)
+				if i := lfirst[b]; !reflect.DeepEqual(res, first[i]) || errS(err) != firstErr[i] {
+					r.Violation("C16:nondeterministic", fmt.Sprintf("sql.Parse(%q) after parsing %q and %q gives %+v (%v); the first time it gave %+v (%s)", b, a1, a2, res, err, first[i], firstErr[i]), map[string]interface{}{"statement": b, "before": []string{a1, a2}})
+				}
 			}
 		}
 	}
